@@ -498,9 +498,15 @@ class Interp:
             if isinstance(a, Opaque) or isinstance(b, Opaque):
                 if op in ("Eq", "Ne") and a == b:
                     return 1 if op == "Eq" else 0
+                if ty in D.INT_TYPES:
+                    if isinstance(a, Opaque):
+                        a = D.top_of_int(ty)
+                    if isinstance(b, Opaque):
+                        b = D.top_of_int(ty) if op not in ("Shl", "Shr") else TOP
+                    return D.binop(op, a, b, ty)
                 if op in D._CMP:
                     return frozenset((0, 1))
-                return D.top_of_int(ty) if ty in D.INT_TYPES else TOP
+                return TOP
             if isinstance(a, En) or isinstance(b, En):
                 # comparison of field-less enums
                 da = self.discr_values(a, ty)
@@ -537,7 +543,7 @@ class Interp:
                 if isinstance(a, En):
                     a = self.discr_values(a, frm)
                 if isinstance(a, Opaque):
-                    return D.top_of_int(to) if to in D.INT_TYPES else TOP
+                    a = TOP
                 return D.cast_int(a, to, frm)
             if ck.startswith("IntToFloat"):
                 return D.int_to_float(a)
